@@ -449,7 +449,8 @@ block -/
 theorem nameUpdate_effects {c : Ctx} {w : World} {bp : Nat} {tx : Tx} {res : Result} {n : Nat} {to : Addr}
     (h : executeTx c w bp tx = res) (ht : tx.type = .governance) (hr : tx.recipient = some aName)
     (hg : tx.gov = .nameUpdate n to) (hne : tx.sender ≠ aName) (hs : res.outcome = .success) :
-    c.namePrice ≤ tx.amount ∧ tx.amount ≤ w.bal tx.sender ∧ w.ownerOf n = some tx.sender ∧ (mget w.namesInit n).isSome ∧
+    c.namePrice ≤ tx.amount ∧ tx.amount ≤ w.bal tx.sender ∧
+    (tx.acctName = some n ∨ (tx.acctName = none ∧ w.ownerOf n = some tx.sender)) ∧ (mget w.namesInit n).isSome ∧
     res.w = payNameEffects { w with names := mset w.names n ((mget w.creator to).getD to, to) } (nameBeneficiary w)
       tx.sender tx.amount tx.nonce ∧
     res.bp = bp := by
@@ -479,13 +480,15 @@ theorem nameUpdate_effects {c : Ctx} {w : World} {bp : Nat} {tx : Tx} {res : Res
               by_cases hq : c.namePrice > tx.amount
               · simp [hq] at hv
               · exact Nat.le_of_not_lt hq
-            have hown : w.ownerOf n = some tx.sender := by
+            have hown : tx.acctName = some n ∨ (tx.acctName = none ∧ w.ownerOf n = some tx.sender) := by
               by_cases hq : c.namePrice > tx.amount
               · simp [hq] at hv
               · simp only [hq, if_false, getCopy_id] at hv
-                by_cases hoo : w.ownerOf n = some tx.sender
-                · exact hoo
-                · simp [hoo] at hv
+                by_cases ha : tx.acctName = some n
+                · exact Or.inl ha
+                · by_cases hoo : tx.acctName = none ∧ w.ownerOf n = some tx.sender
+                  · exact Or.inr hoo
+                  · simp [ha, hoo] at hv
             split at herr
             · simp at herr
             · rename_i hinit
@@ -685,6 +688,7 @@ theorem execute_vm_ok {c : Ctx} {w : World} {tx : Tx} {snd rcv : Copy} {isFD : B
               · split at h
                 · subst h; simp at he
                 · subst h; simp at he
+              · subst h; simp at he
               · subst h; simp at he
               · rename_i herr
                 split at h
